@@ -307,6 +307,18 @@ def P11 (tr : Trace) : Bool := checkTrace step11 { choked := true, buffered := [
 
 /-! ### C01 (connection-task part): only hash-verified data is stored and reported -/
 
+/-- Stores and `PieceDone` reports among the observations, in order (`true` = a store). -/
+def isSD : Obs → Bool
+  | .saved .. => true
+  | .cmd .pieceDone => true
+  | _ => false
+
+def isSavedObs : Obs → Bool
+  | .saved .. => true
+  | _ => false
+
+def sdExpr (obs : List Obs) : List Bool := (obs.filter isSD).map isSavedObs
+
 structure M01 where
   want : Option Bytes      -- the listed hash of the piece this connection is downloading
   alive : Bool
@@ -321,9 +333,7 @@ def step01c (st : M01) (inp : TIn) (obs : List Obs) (ended : Option Bool) : Opti
     | [(name, dataHash, _)] => decide (st.want = some name ∧ dataHash = name)
     | _ => false
   -- PieceDone exactly once per store, right after it
-  let doneOk :=
-    (obs.filter (fun o => match o with | .saved .. => true | .cmd .pieceDone => true | _ => false)).map
-      (fun o => match o with | .saved .. => true | _ => false) = (if saves.isEmpty then [] else [true, false])
+  let doneOk := sdExpr obs = (if saves.isEmpty then [] else [true, false])
   if !(savesOk && decide doneOk) then none else
   let want' := match assigned inp obs with
     | some (some rd) => some rd.hash
